@@ -11,6 +11,7 @@ Part B: exactly one template construct is planted inside one value that reaches 
 from hypothesis import strategies as st
 
 from pbt.core import HarnessError, Outcome
+from pbt.props import _decoys
 
 TECHNIQUE = "grammar-based generation of templates as segment trees + contexts, differential against an independent single-pass reference renderer; non-interference (value opacity) by planting one construct per known injection channel"
 LEVEL_TEXT = ("Exploration: templates over every documented construct (plain/optional/defaulted/filtered variables, if/else, each with item/./index/first/last and dict keys, includes up to 3 acyclic "
@@ -31,6 +32,7 @@ ASSUMPTIONS = [
 MIN_NONTRIVIAL_FRACTION = 0.3
 RULE += " Added after the seeded rounds: " + 'A case may perform earlier renders on the same Ribosome first (including renders that fail half-way inside an include or a filter).'
 RULE += " Templates reach the registry through every documented path (register_template with a named mRNA, with an unnamed mRNA and a name override, with mRNAs that all carry the same .name, the constructor's templates mapping, create_template) and the main template is passed as a named object, an unnamed object, an object named like an included template, or by registry key: {{>key}} resolves by registry key whatever the objects call themselves. The strict-mode table is repeated over these modes."
+RULE += ' Round 7: a `decoy` (pbt/props/_decoys.py): a second object of the class, differently configured and put through a misleading script (same prompts / names / ids, opposite verdicts and limits), is built in the same process after the object under test.'
 EXHAUSTIVE_NOTE = {"quick": "9 channels x 6 planted constructs = 54 part-B cases, complete; strict-mode table: 11 locations of a plain variable (main, arms, loop body, includes to depth 3, filtered) x bound/unbound x strict on/off x with/without an earlier render = 88 cases", "thorough": "same table, complete"}
 
 VARS = ["a", "b", "c", "user", "topic"]
@@ -198,7 +200,7 @@ def _case_b(draw):
 
 def strategy(tier):
     a, b = _case_a(), _case_b()
-    return st.integers(0, 9).flatmap(lambda k: a if k < 6 else b)
+    return _decoys.with_decoy(st.integers(0, 9).flatmap(lambda k: a if k < 6 else b))
 
 
 def _strict_table():
@@ -421,6 +423,9 @@ def judge(case):
                 rib.create_template(unparse(segs), name)
             else:
                 raise HarnessError("unknown registration mode %r" % (reg,))
+    if case.get("decoy"):
+        _decoys.ribosome(case["decoy"], Ribosome, mRNA, sorted(templates) + ["main", "prompt"], strict_mode=case["strict"])
+        out.label("decoy")
     main_mode = case.get("main_mode", "object")
 
     def main_template():
